@@ -89,10 +89,22 @@ def c14(seed, n, pool=None):
             cid = 'c14-%d-%d' % (i, sp)
             g.append((cid, c)); cases.append((cid, c))
         groups.append(g)
+    # ... and every KIND of invalid construct the generator knows at least twice (see `stratified`)
+    seen = collections.Counter()
+    for i in range(n, 16 * n):
+        c0 = gen.gen_case('c14-%d-%d' % (seed, i), 0, pool, want_fault=True)
+        if not c0.fault or seen[c0.fault] >= 2:
+            continue
+        seen[c0.fault] += 1
+        g = [('c14-%d-0' % i, c0)]
+        for sp in (1, 2, 3):
+            g.append(('c14-%d-%d' % (i, sp), gen.gen_case('c14-%d-%d' % (seed, i), sp, pool, want_fault=True)))
+        cases.extend(g)
+        groups.append(g)
     real = k1.run_real([(i, c.rust()) for i, c in cases])
     model = k1.run_model([(i, c.sx()) for i, c in cases])
     fails, kdiffs = [], []
-    stats = collections.Counter()
+    stats = collections.Counter(fault_kinds=len(seen))
     for g in groups:
         base_id, base = g[0]
         r0 = outcome(real[base_id]); m0 = k1lib.classify(model[base_id], 'model')
